@@ -8,8 +8,9 @@ from . import core, env, tlc
 
 
 def registry():
-    from . import p_binary, p_layout, p_file, p_cuts, p_writer, p_schema
+    from . import p_binary, p_layout, p_file, p_cuts, p_writer, p_schema, p_logical
     return {
+        "C16": p_logical.run_c16,
         "C11": p_schema.run_c11,
         "C13": p_schema.run_c13,
         "C14": p_schema.run_c14,
